@@ -344,6 +344,25 @@ func (p *Plugin) StartDial(rt *Runtime, extra ...stub.Option) error {
 	return st.Start(context.Background())
 }
 
+// Prepare creates the stub (socket path of the runtime, no fixed connection) without starting it;
+// Restart starts it.
+func (p *Plugin) Prepare(rt *Runtime, extra ...stub.Option) error {
+	opts := append([]stub.Option{
+		stub.WithPluginName(p.Name), stub.WithPluginIdx(p.Idx), stub.WithSocketPath(rt.Sock),
+		stub.WithOnClose(func() {
+			p.mu.Lock()
+			p.Closed++
+			p.mu.Unlock()
+		}),
+	}, extra...)
+	st, err := stub.New(p, opts...)
+	if err != nil {
+		return err
+	}
+	p.Stub = st
+	return nil
+}
+
 // Restart starts the same stub again (on a fresh connection).
 func (p *Plugin) Restart() error { return p.Stub.Start(context.Background()) }
 
